@@ -160,6 +160,17 @@ CLAIMED = {
         'Trusted: Coq kernel; extraction + driver; the time guard; the tolerant reading that a write REQUEST which is complete and well-formed on its own counts even when the '
         'enclosing frame has trailing bytes or a later bundle member is malformed (cpppo executes exactly those; documented in DESIGN.md).',
    technique='Coq proof (store-change lemmas over Model.Logix, pigeonhole bound on the cycle crumbs, reuse of C01/C02/C10 theorems) + guarded structure-aware fuzzing against the reference decoder', design='6 C08'),
+ 'C12': dict(
+   text='Coq theorems (Properties/C12.v): for every operation list and bundle size limit the bundling plan of connector.issue issues every operation exactly once and in order, never '
+        'produces an empty bundle and never mixes operations with different route or send paths; executing operations group by group - however grouped - yields the statuses, values '
+        'and final tags of executing them one by one, and a Multiple Service Packet executes exactly like that; for every pipelining depth every issued operation is harvested '
+        'exactly once in issue order; every well-formed operation description (TAG, [i], [a-b], +offset, =(TYPE)values) parses back to the operation it spells.  Tie: the real '
+        'client.connector against a simulator subprocess, wire requests intercepted from outside: bundles sent = extracted plan, issue/harvest interleaving = extracted schedule; '
+        'and on the implementation: one result per operation, identical statuses/values under every (depth, multiple, fragment) setting, each bundle on its operations\' route path; '
+        'parse_operations / parse_path / format_path on generated descriptions.',
+   note='Trusted: Coq kernel; extraction + driver; the size estimates that drive bundling are re-stated in the harness from issue()\'s documentation; results are compared across settings '
+        'on the implementation (their agreement with the array model is C03-C07); numeric @class/instance/attribute and JSON path text are checked on the implementation only.',
+   technique='Coq proof (induction over the operation list / schedule fuel; separator-freeness lemmas for the text round trip) + model/implementation correspondence', design='6 C12'),
 }
 PENDING = {}
 ALL = ['C%02d' % i for i in range(1, 21)]
